@@ -28,6 +28,7 @@ for d in /verif/seeded/*/; do
   fi
   log="$out/$name.log"
   (cd "$simc" && ./run "$check" --tier quick) >"$log" 2>&1; rc=$?
+  cp "$simc"/sim/target/asan-*.log "$out/" 2>/dev/null
   first=$(grep -m1 -A1 "^VIOLATION" "$log" | tail -1 | cut -c1-150)
   case $rc in
     1) echo "$name ($prop): CAUGHT  $first" ;;
@@ -35,5 +36,6 @@ for d in /verif/seeded/*/; do
     *) echo "$name ($prop): HARNESS-ERROR rc=$rc $(tail -1 "$log" | cut -c1-120)" ;;
   esac
 done
+if [ -n "${KEEP:-}" ]; then echo "kept: $wt $simc (remove with: git -C /repo worktree remove --force $wt; rm -rf $simc)"; exit 0; fi
 git -C /repo worktree remove --force "$wt"
 rm -rf "$simc"
